@@ -40,6 +40,9 @@ extern nni_verif_ops nni_verif;
 extern unsigned long nni_verif_expire_scans(void);
 extern void          nni_verif_expire_scan_inc(void);
 
+// True while the reaper thread has work queued or in progress (reap.c).
+extern bool nni_verif_reap_busy(void);
+
 extern bool nni_verif_tracing(void);
 // fmt/... produce the body of a JSON object without braces, e.g.
 // "\"rv\":%d"; may be NULL.
